@@ -5,6 +5,7 @@ grid, every digest length, parameter-block fields at their range ends - TLC reco
 import core, hashrec as H, blake2rec as B2
 
 def run(ctx):
+    ctx.claim_exhaustive = False      # keys / messages / parameters are sampled over an enumerated grid; only the spec-level models are exhaustive
     rnd = ctx.rnd; big = ctx.big()
     for cfg in ('MC_Padding_blake1', 'MC_Padding_blake0'): ctx.model_check('mc/MC_Padding.tla', 'mc/%s.cfg' % cfg, what=cfg, env={'MAXBITS': '12'})
     ctx.model_check('mc/MC_MDObj.tla', 'mc/MC_MDObj_blake.cfg', what='MC_MDObj_blake (per-block counter, pad-only block = 0)')
